@@ -77,8 +77,16 @@ class Model:
         return self._run(fn, obj, method, args, kwargs, bind_self=True)
 
     def _run(self, fn, obj: "MObj", method: str, args: List[object], kwargs: Optional[Dict[str, object]], bind_self: bool) -> object:  # type: ignore[no-untyped-def]
-        key = (obj.uid, fn.qualname, tuple(("$node", a.uid) if isinstance(a, MObj) else a for a in args))  # fn.qualname names the class
-        cacheable = method != "__init__" and not kwargs and all(isinstance(k, (str, int, float, bool, type(None), tuple)) for k in key[2])
+        def keyed(a: object) -> object:
+            # True == 1 and hash(True) == hash(1): the type is part of the key, at every depth
+            if isinstance(a, MObj):
+                return ("$node", a.uid)
+            if isinstance(a, tuple):
+                return ("tuple", tuple(keyed(x) for x in a))
+            return (type(a).__name__, a)
+
+        key = (obj.uid, fn.qualname, tuple(keyed(a) for a in args))  # fn.qualname names the class
+        cacheable = method != "__init__" and not kwargs and all(isinstance(a, (str, int, float, bool, type(None), tuple, MObj)) for a in args)
         if cacheable and key in self.cache:
             return self.cache[key]
         if self.depth > 12:  # noqa: PLR2004
@@ -116,6 +124,16 @@ class Model:
                 r = self.hook(e, a, env2, ex)
                 if r is not None:
                     return r
+            if isinstance(e.func, ast.Name) and e.func.id not in env2 and e.func.id not in fn.module.functions and e.func.id in fn.module.imports:
+                # a function of another module of the package, imported by name
+                src_mod, src_name = fn.module.imports[e.func.id]
+                target = self.ctx.repo.modules.get(src_mod) or self.ctx.repo.modules.get(fn.module.name.rsplit(".", 1)[0] + "." + src_mod.lstrip("."))
+                if target is not None and (src_name or e.func.id) in target.functions:
+                    kwi = {k.arg: ex.value(k.value, env2) for k in e.keywords if k.arg}
+                    ri = self.call_function(target.functions[src_name or e.func.id], list(a), kwi)
+                    if ri is RAISES:
+                        raise _PathRaises("callee raises")
+                    return RETURNS_NONE if ri is None else ri
             if isinstance(e.func, ast.Name) and e.func.id not in env2 and e.func.id in fn.module.functions:
                 # a module-level helper of the same module
                 kwf = {k.arg: ex.value(k.value, env2) for k in e.keywords if k.arg}
@@ -161,7 +179,26 @@ class Model:
         # outcomes that went through an exception handler are the exceptional alternatives of a path that
         # also completes normally; the value of the call is that of the normal completions when there are any
         normal = [(k, v) for (k, _n, v), e2 in zip(outs, ex.envs) if not e2.get("$handlers")]
-        chosen = normal if normal else [(k, v) for k, _n, v in outs]
+        if normal:
+            chosen = normal
+        else:
+            # only handler paths are left: when the body certainly raised a known class, the handlers that catch it
+            _UP = {"KeyError": {"LookupError"}, "IndexError": {"LookupError"}, "UnicodeDecodeError": {"ValueError"}, "re.error": {"error"}}
+
+            def catches(h: ast.ExceptHandler, cls_: str) -> bool:
+                if h.type is None:
+                    return True
+                names = {x.id for x in ast.walk(h.type) if isinstance(x, ast.Name)} | {x.attr for x in ast.walk(h.type) if isinstance(x, ast.Attribute)}
+                return bool(names & ({cls_, cls_.split(".")[-1], "Exception", "BaseException"} | _UP.get(cls_, set())))
+
+            chosen = []
+            for (k, _n, v), e2 in zip(outs, ex.envs):
+                hs = e2.get("$handlers") or ()
+                if ex.raised and hs and not any(catches(hs[0], c_) for c_ in ex.raised):
+                    continue
+                chosen.append((k, v))
+            if not chosen and ex.raised:
+                chosen = [("raise", None)]
         vals = [v for k, v in chosen if k == "return"]
         others = [k for k, _v in chosen if k not in ("return",)]
         res: object = UNKNOWN
